@@ -229,6 +229,48 @@ def laws(ctx):
                 _same(ctx, f"{T}: star({n}) = 1 + star({n})*{n}", st, r2, hyps=hyps, tol=tol)
 
 
+@case("C16", "float_extremes", domain="SNum")
+def float_extremes(ctx):
+    """Concrete IEEE guard (NOT a solver verdict): a few law instances on extreme float scores, where a
+    mathematically equivalent rearrangement can overflow or lose everything (e.g. Log addition anchored on the
+    smaller operand).  Tolerance 1e-9 relative."""
+    from genlm.grammar import semiring as R
+
+    def close(x, y):
+        if x == y:
+            return True
+        if any(isinstance(v, float) and (math.isnan(v) or math.isinf(v)) for v in (x, y)):
+            return False
+        return abs(x - y) <= 1e-9 * max(1.0, abs(x), abs(y))
+
+    L = R.Log
+    vals = [L(0.0), L(-800.0), L(-745.2), L(-1e-9), L(-30.0), L(-700.0)]
+    for a in vals:
+        for b in vals:
+            ok1, s1 = ctx.call(f"Log {a.score}+{b.score}", lambda: a + b, sig="Log:add:exception")
+            ok2, s2 = ctx.call(f"Log {b.score}+{a.score}", lambda: b + a, sig="Log:add:exception")
+            if ok1 and ok2:
+                hi, lo = max(a.score, b.score), min(a.score, b.score)
+                want = hi + math.log1p(math.exp(lo - hi))
+                ctx.check(f"Log({a.score}) + Log({b.score}) = log(e^a + e^b) and commutes", close(s1.score, want) and close(s2.score, want), detail=f"{s1.score} / {s2.score} vs {want}", sig="float-extremes:Log:add")
+            for c in vals[:3]:
+                ok3, l = ctx.call("assoc", lambda: (a + b) + c, sig="Log:add:exception")
+                ok4, r = ctx.call("assoc", lambda: a + (b + c), sig="Log:add:exception")
+                if ok3 and ok4:
+                    ctx.check(f"Log: ({a.score}+{b.score})+{c.score} = {a.score}+({b.score}+{c.score})", close(l.score, r.score), detail=f"{l.score} vs {r.score}", sig="float-extremes:Log:assoc")
+    for x in [L(-800.0), L(-30.0), L(-0.7), L(-0.2), L(-1e-3)]:
+        ok, st = ctx.call(f"Log star({x.score})", x.star, sig="Log:star:exception")
+        if ok:
+            want = -math.log1p(-math.exp(x.score))
+            ok2, rhs = ctx.call("Log one + x*star(x)", lambda: L.one + x * st, sig="Log:star:exception")
+            ctx.check(f"Log star({x.score}) = -log(1 - e^x) = one + x*star(x)", close(st.score, want) and ok2 and close(rhs.score, want), detail=f"{st.score} / {rhs.score if ok2 else None} vs {want}", sig="float-extremes:Log:star")
+    for T, big in [(R.Real, 1e-300), (R.MaxTimes, 1e-300)]:
+        a, b, c = T(big), T(1e300), T(3.0)
+        ok, l = ctx.call("assoc", lambda: (a * b) * c, sig=f"{T.__name__}:mul:exception")
+        if ok:
+            ctx.check(f"{T.__name__}: (1e-300*1e300)*3 = 3", close(l.score, 3.0), detail=str(l.score), sig=f"float-extremes:{T.__name__}")
+
+
 def jobs(tier, seed):
     out = []
     for T in TYPES:
@@ -238,6 +280,7 @@ def jobs(tier, seed):
             if T == "Log" and tier == "quick":
                 prm["triples_without_fresh"] = True  # fresh zero'/one' take part in the unary and binary laws only
             out.append(dict(case="laws", params=prm, hashseed=0, timeout=1500))
+    out.append(dict(case="float_extremes", params={}, hashseed=0))
     out.append(dict(case="laws", params=dict(type="Real", nsym=2, canary=True), hashseed=0))
     return out
 
@@ -254,6 +297,6 @@ INFO = dict(
     design_ref="DESIGN.md section 3 C16",
     explanation="The real operator methods of each shipped semiring class are executed on symbolic scores; z3 proves each law instance for all real values.",
     bounds=dict(types=TYPES, symbolic_values_per_type=3, pool="zero, one, fresh zero, fresh one, x0, x1, x2"),
-    outside=["IEEE rounding (floats are reals; Log scores are exact logarithms)", "MaxTimes outside scores >= 0", "quick tier: Log triples use the shared zero/one objects and three symbolic values (fresh equal values take part in unary and binary laws only)"],
+    outside=["IEEE rounding for the solver-decided part (floats are reals; Log scores are exact logarithms); one concrete float guard `float_extremes` on extreme scores is included and labelled as such", "MaxTimes outside scores >= 0", "quick tier: Log triples use the shared zero/one objects and three symbolic values (fresh equal values take part in unary and binary laws only)"],
     assumptions=["scores are reals", "star argument inside the convergence domain"],
 )
